@@ -534,6 +534,11 @@ func (root *Root) validate() error {
 		errs = append(errs, root.validateDirUses(t)...)
 		errs = append(errs, t.Validate(root)...)
 	}
+	// A schema that was not declared is not in the type table but an
+	// 'extend schema' can put directives on it all the same.
+	if root.schema != nil && root.types.get(root.schema.Name()) != root.schema {
+		errs = append(errs, root.validateDirUses(root.schema)...)
+	}
 	if 0 < len(errs) {
 		return Errors(errs)
 	}
